@@ -13,6 +13,9 @@
 import NiftyVerif.Lemmas.Coo
 import NiftyVerif.Lemmas.LinOps
 import NiftyVerif.Lemmas.LinOpsWf
+import NiftyVerif.Lemmas.Transpose
+import NiftyVerif.Lemmas.LinOpsMore
+import NiftyVerif.Lemmas.HarmonicCoo
 import NiftyVerif.Lemmas.CQ
 
 namespace NiftyVerif.C02
@@ -394,6 +397,46 @@ theorem axisSelect_spec (sh : List Nat) (sel : List (List Nat)) (x : Nat → K) 
         (sel.getD d []).getD ((unravel (sel.map List.length) r).getD d 0) 0)) := by
   unfold axisSelect; exact gather_spec _ _ _ x r hr
 
+/-- SliceOperator, one axis: the selected pixels are `npix` consecutive in-range pixels; centred slices leave
+    `floor((n−npix)/2)` pixels in front and the remaining `ceil` behind -/
+theorem sliceSel_spec (n npix : Nat) (center : Bool) (h : npix ≤ n) :
+    (sliceSel n npix center).length = npix ∧
+    (∀ k, k < npix → (sliceSel n npix center).getD k 0 = (if center then (n - npix) / 2 else 0) + k) ∧
+    (∀ i ∈ sliceSel n npix center, i < n) := by
+  refine ⟨by simp [sliceSel], ?_, ?_⟩
+  · intro k hk
+    unfold sliceSel
+    rw [getD_map_range _ _ _ _ hk]
+  · intro i hi
+    simp only [sliceSel, List.mem_map, List.mem_range] at hi
+    obtain ⟨k, hk, rfl⟩ := hi
+    split <;> omega
+
+/-- `utilities.parse_spaces`: `None` means all sub-domains; an accepted tuple is returned unchanged and is in range -/
+theorem parseSpaces_ok (n : Nat) :
+    parseSpaces none n = .ok (List.range n) ∧
+    ∀ l' l, parseSpaces (some l') n = .ok l → l = l' ∧ ∀ s ∈ l, s < n := by
+  refine ⟨rfl, ?_⟩
+  intro l' l h
+  simp only [parseSpaces] at h
+  split at h
+  · rename_i he
+    simp only [Except.ok.injEq] at h; subst h
+    simp only [List.isEmpty_iff] at he; subst he
+    exact ⟨rfl, fun s hs => by simp at hs⟩
+  · split at h
+    · cases h
+    · rename_i hany
+      split at h
+      · cases h
+      · simp only [Except.ok.injEq] at h; subst h
+        refine ⟨rfl, ?_⟩
+        intro s hs
+        by_contra hge
+        apply hany
+        simp only [List.any_eq_true, decide_eq_true_eq]
+        exact ⟨s, hs, by omega⟩
+
 /-- the indices a (repaired) SplitOperator selects for `start:stop:step` are exactly NumPy's: all
     `start + k·step` below `min stop n` — in particular their number is the ceiling, not the floor, of
     `(stop − start)/step` (finding C02-split_strided_length) -/
@@ -444,13 +487,78 @@ theorem shift1_inverse (n : Nat) (x : Nat → K) (i : Nat) (hi : i < n) :
     have : i + n / 2 - n + (n - n / 2) < n := by omega
     simp only [this, if_true]; omega
 
+/-- DomainTupleFieldInserter on a `(pre, n, post)` target: the input lands at position `p` of the new space, zeros elsewhere -/
+theorem fieldInserter_spec (pre n post p : Nat) (hp : p < n) (x : Nat → K) (a r b : Nat)
+    (ha : a < pre) (hr : r < n) (hb : b < post) :
+    apply (fieldInserter pre n post p) x ((a * n + r) * post + b) = if p = r then x ((a * 1 + 0) * post + b) else 0 := by
+  unfold fieldInserter
+  have hwf : (⟨n, 1, [(p, 0, (1 : K))]⟩ : Coo K).wf = true := by
+    rw [wf_iff]; intro e he; simp only [List.mem_singleton] at he; subst he; exact ⟨hp, Nat.zero_lt_one⟩
+  have := apply_onAxis pre post (⟨n, 1, [(p, 0, (1 : K))]⟩ : Coo K) hwf x a r b ha hr hb
+  simp only at this
+  rw [this]
+  simp [apply, applyE]
+
+/-- ExtractAtIndices on a `(pre, n, post)` domain: `y[a, k, b] = x[a, idx[k], b]` (repeated indices allowed) -/
+theorem extractAt_spec (pre n post : Nat) (idx : List Nat) (hidx : ∀ k, k < idx.length → idx.getD k 0 < n)
+    (x : Nat → K) (a k b : Nat) (ha : a < pre) (hk : k < idx.length) (hb : b < post) :
+    apply (extractAt pre n post idx) x ((a * idx.length + k) * post + b) = x ((a * n + idx.getD k 0) * post + b) := by
+  unfold extractAt
+  have hwf : (gather idx.length n fun k => idx.getD k 0 : Coo K).wf = true := gather_wf _ _ _ hidx
+  have := apply_onAxis pre post (gather idx.length n fun k => idx.getD k 0 : Coo K) hwf x a k b ha hk hb
+  simp only [gather, ofRows] at this ⊢
+  rw [this]
+  have h2 := gather_spec (K := K) idx.length n (fun k => idx.getD k 0) (fun c => x ((a * n + c) * post + b)) k hk
+  simpa [gather, ofRows] using h2
+
+/-- MatrixProductOperator on the middle block of a `(pre, n, post)` domain: `y[a, i, b] = Σ_j m[i, j] · x[a, j, b]` -/
+theorem matrixProduct_spec (pre n post : Nat) (m : List K) (x : Nat → K) (a i b : Nat)
+    (ha : a < pre) (hi : i < n) (hb : b < post) :
+    apply (matrixProduct pre n post m) x ((a * n + i) * post + b)
+      = sumN n fun j => m.getD (i * n + j) 0 * x ((a * n + j) * post + b) := by
+  unfold matrixProduct
+  have hwf : (ofRows n n fun i => (List.range n).map fun j => (j, m.getD (i * n + j) 0) : Coo K).wf = true := by
+    apply ofRows_wf; intro r _ cw hcw
+    simp only [List.mem_map, List.mem_range] at hcw
+    obtain ⟨c, hc, rfl⟩ := hcw; exact hc
+  have := apply_onAxis pre post (ofRows n n fun i => (List.range n).map fun j => (j, m.getD (i * n + j) 0) : Coo K)
+    hwf x a i b ha hi hb
+  simp only [ofRows] at this ⊢
+  rw [this]
+  have h2 := matrixProduct1_spec (K := K) n m (fun c => x ((a * n + c) * post + b)) i hi
+  simpa [ofRows] using h2
+
 /-- every row-wise operator with in-range columns satisfies the adjoint identity (instance of `coo_adjoint`) -/
 theorem ofRows_adjoint {cj : K → K} (hc : IsConj cj) (rows cols : Nat) (f : Nat → List (Nat × K))
     (h : ∀ r, r < rows → ∀ cw ∈ f r, cw.1 < cols) (x y : Nat → K) :
     inner cj rows y (apply (ofRows rows cols f) x) = inner cj cols (applyAdj cj (ofRows rows cols f) y) x :=
   Coo.coo_adjoint hc (ofRows rows cols f) (ofRows_wf rows cols f h) x y
 
-/-- TransposeOperator on two sub-domains of sizes `a`, `b` (indices (1,0)): a permutation, adjoint = inverse.
+/-- **TransposeOperator, any number of sub-domains**: for every permutation `perm` of the sub-domain indices the
+    operator is a permutation matrix — well-formed, and its adjoint is its inverse on both sides (so the four
+    modes TIMES / ADJOINT_INVERSE and ADJOINT / INVERSE coincide pairwise, as the code advertises) -/
+theorem transpose_inverse {cj : K → K} (hc1 : cj 1 = 1) (sizes perm : List Nat)
+    (hperm : perm.Perm (List.range sizes.length)) (x : Nat → K) (i : Nat) (hi : i < prodL sizes) :
+    (transpose sizes perm : Coo K).wf = true ∧
+    applyAdj cj (transpose sizes perm) (apply (transpose sizes perm) x) i = x i ∧
+    apply (transpose sizes perm) (applyAdj cj (transpose sizes perm) x) i = x i := by
+  rw [transpose_eq_gather, prodL_tsizes hperm]
+  have hsrc : ∀ r, r < prodL sizes → tSrc sizes perm r < prodL sizes := fun r hr =>
+    tSrc_lt hperm r (by rw [prodL_tsizes hperm]; exact hr)
+  have hinvlt : ∀ c, c < prodL sizes → tInv sizes perm c < prodL sizes := fun c hc => by
+    have := tInv_lt hperm c hc; rwa [prodL_tsizes hperm] at this
+  have hinv : ∀ r, r < prodL sizes → ∀ c, c < prodL sizes → (tSrc sizes perm r = c ↔ r = tInv sizes perm c) := by
+    intro r hr c hc
+    constructor
+    · intro h; rw [← h, tInv_tSrc hperm r (by rw [prodL_tsizes hperm]; exact hr)]
+    · intro h; rw [h, tSrc_tInv hperm c hc]
+  exact ⟨gather_wf _ _ _ hsrc,
+    gather_perm_unitary hc1 (prodL sizes) (tSrc sizes perm) (tInv sizes perm) hinv hsrc hinvlt x i hi⟩
+
+-- non-vacuity: a 3-cycle of three sub-domains
+example : ([2, 0, 1] : List Nat).Perm (List.range [2, 3, 4].length) := by decide
+
+/-- TransposeOperator on two sub-domains of sizes `a`, `b` (indices (1,0)), in explicit index arithmetic
     (The general n-sub-domain statement follows from `gather_perm_unitary` once the source map is shown
     bijective; proved here for the 2-sub-domain case, all sizes.) -/
 theorem transpose2_inverse_partial {cj : K → K} (hc1 : cj 1 = 1) (a b : Nat) (x : Nat → K) (i : Nat) (hi : i < a * b) :
@@ -496,6 +604,90 @@ theorem transpose2_inverse_partial {cj : K → K} (hc1 : cj 1 = 1) (a b : Nat) (
       _ = a * b := Nat.mul_comm _ _
   · exact hi
 
+
+/-- **chains**: applying a composed COO operator is applying one after the other (well-formed factors, matching sizes) -/
+theorem coo_comp_apply (M N : Coo K) (hM : M.wf = true) (hN : N.wf = true) (hdim : N.rows = M.cols)
+    (x : Nat → K) (r : Nat) : apply (comp M N) x r = apply M (apply N x) r := apply_comp M N hM hN hdim x r
+
+/-- **per-axis loops** (FieldZeroPadder, RegriddingOperator, FFTShiftOperator): the composed operator acts like the
+    successive 1-D operators on the evolving array, each embedded with `onAxis` (whose fibre-wise action is
+    `onAxis_spec` and whose 1-D specs are `pad1_*_spec`, `regrid1_spec`, `shift1_inverse`) -/
+theorem alongAxes_spec (sh : List Nat) (d0 : Nat) (ops : List (Option (Coo K))) (hok : alongOk sh d0 ops)
+    (x : Nat → K) (r : Nat) (hr : r < (alongAxes sh d0 ops).rows) :
+    apply (alongAxes sh d0 ops) x r = alongAxesFn sh d0 ops x r := alongAxes_apply sh d0 ops hok x r hr
+
+-- non-vacuity: the side condition holds for a concrete 2-axis central padder (3,2) → (5,2) → (5,4)
+example : alongOk (K := CQ) [3, 2] 0 [some (pad1 3 5 true), some (pad1 2 4 true)] :=
+  ⟨by decide, by decide, by decide, by decide, by decide, by decide, trivial⟩
+
+/-! ### identity-type and block-type operators, einsum -/
+
+/-- fields on a DomainTuple may be indexed at sub-domain granularity: raveling all axes = raveling the per-sub-domain
+    flat indices over the sub-domain sizes (justifies the `sizes`-level models of contraction, distributor, transpose, …) -/
+theorem subdomain_granularity (shapes idxs : List (List Nat)) (hl : shapes.length = idxs.length)
+    (h : ∀ p ∈ shapes.zip idxs, p.2.length = p.1.length) :
+    ravel shapes.flatten idxs.flatten = ravel (shapes.map prodL) ((shapes.zip idxs).map fun p => ravel p.1 p.2) :=
+  ravel_grouped shapes idxs hl h
+
+/-- SqueezeOperator / `expand_dims`: removing or inserting a unit axis does not move any pixel in the raveled data -/
+theorem squeeze_is_identity (a i b j : List Nat) (h : i.length = a.length) :
+    ravel (a ++ 1 :: b) (i ++ 0 :: j) = ravel (a ++ b) (i ++ j) := ravel_unit_axis a i b j h
+
+/-- SqueezeOperator, GeometryRemover, DomainChangerAndReshaper, FieldAdapter, Multifield2Vector (model `ident n`):
+    `y = x` on raveled data; the operator is its own adjoint (hence its own inverse where all modes are advertised) -/
+theorem identity_ops_spec {cj : K → K} (hc1 : cj 1 = 1) (n : Nat) (x : Nat → K) (r : Nat) (hr : r < n) :
+    apply (ident n) x r = x r ∧ adj cj (ident n : Coo K) = ident n ∧ (ident n : Coo K).wf = true :=
+  ⟨ident_apply n x r hr, ident_adj hc1 n, ident_wf n⟩
+
+/-- _SlowFieldAdapter, PartialExtractor, PrependKey (model `blockOps`): every target block copies its domain block -/
+theorem block_ops_spec (rows cols : Nat) (bs : List (Nat × Nat × Nat)) (x : Nat → K) (r : Nat) :
+    apply (blockOps rows cols bs) x r =
+      sumL (bs.map fun b => if b.1 ≤ r ∧ r < b.1 + b.2.2 then x (b.2.1 + (r - b.1)) else 0) :=
+  blockOps_apply rows cols bs x r
+
+theorem block_ops_wellformed (rows cols : Nat) (bs : List (Nat × Nat × Nat))
+    (h : ∀ b ∈ bs, b.1 + b.2.2 ≤ rows ∧ b.2.1 + b.2.2 ≤ cols) : (blockOps rows cols bs : Coo K).wf = true :=
+  blockOps_wf rows cols bs h
+
+/-- LinearEinsum: `y[os] = Σ_{assignments a of all letters with os(a) = r} Π_k mf_k[letters_k(a)] · x[xs(a)]` -/
+theorem einsum_spec (letters : List Char) (sz : Char → Nat) (ops : List (List Char × List K)) (xs os : List Char)
+    (x : Nat → K) (r : Nat) :
+    apply (einsum letters sz ops xs os) x r =
+      sumN (prodL (letters.map sz)) fun t =>
+        let a := unravel (letters.map sz) t
+        let flat := fun (ls : List Char) => ravel (ls.map sz) (ls.map fun c => a.getD (letters.idxOf c) 0)
+        if flat os = r then prodK (ops.map fun o => o.2.getD (flat o.1) 0) * x (flat xs) else 0 := by
+  unfold apply applyE einsum sumN
+  simp only [List.map_map]
+  rfl
+
+/-- … and its adjoint is the einsum with input/output subscripts exchanged and conjugated static operands —
+    what `LinearEinsum.apply` computes in ADJOINT_TIMES mode (`_adj_sscr`, `mf.conjugate()`) -/
+theorem einsum_adjoint {cj : K → K} (hc : IsConj cj) (hc1 : cj 1 = 1) (letters : List Char) (sz : Char → Nat)
+    (ops : List (List Char × List K)) (xs os : List Char) :
+    adj cj (einsum letters sz ops xs os) = einsum letters sz (ops.map fun o => (o.1, o.2.map cj)) os xs :=
+  einsum_adj hc hc1 letters sz ops xs os
+
+/-- hence the adjoint identity for every LinearEinsum whose subscripts are consistent (all letters known) -/
+theorem einsum_adjoint_identity {cj : K → K} (hc : IsConj cj) (letters : List Char) (sz : Char → Nat)
+    (ops : List (List Char × List K)) (xs os : List Char)
+    (hxs : ∀ c ∈ xs, c ∈ letters) (hos : ∀ c ∈ os, c ∈ letters) (x y : Nat → K) :
+    inner cj (einsum letters sz ops xs os).rows y (apply (einsum letters sz ops xs os) x)
+      = inner cj (einsum letters sz ops xs os).cols (applyAdj cj (einsum letters sz ops xs os) y) x :=
+  Coo.coo_adjoint hc _ (einsum_wf letters sz ops xs os hxs hos) x y
+
+/-! ### harmonic operators through C09's model -/
+
+/-- FFTOperator / HartleyOperator on one sub-space of a product domain, as COO operators (C09's `dftCoo` /
+    `hartleyCoo`, embedded with `onAxis`): well-formed, hence `⟨y, A x⟩ = ⟨Aᴴ y, x⟩` with `Aᴴ` the conjugate
+    transpose — for every axis length, every spectator sizes `pre`, `post`, every root `w` -/
+theorem harmonic_coo_adjoint {cj : K → K} (hc : IsConj cj) (pre post n : Nat) (A : Nat → Nat → K) (x y : Nat → K) :
+    (onAxis pre post (Harmonic.matCoo n A)).wf = true ∧
+    inner cj (onAxis pre post (Harmonic.matCoo n A)).rows y (apply (onAxis pre post (Harmonic.matCoo n A)) x)
+      = inner cj (onAxis pre post (Harmonic.matCoo n A)).cols
+          (applyAdj cj (onAxis pre post (Harmonic.matCoo n A)) y) x :=
+  ⟨onAxis_wf _ _ _ (Harmonic.matCoo_wf n A),
+   Coo.coo_adjoint hc _ (onAxis_wf _ _ _ (Harmonic.matCoo_wf n A)) x y⟩
 
 /-! ## Part 3 — the adjoint identity for each modelled operator class, every configuration
     (`coo_adjoint` + well-formedness of the class model, Lemmas/LinOpsWf.lean) -/
